@@ -42,7 +42,7 @@
 #define CSUM 1		/* 1: metadata_csum set; 0: neither metadata_csum nor gdt_csum */
 #endif
 
-/* BOUND: inode size 128 or 256 (-DISIZE), descriptor size 32 or 64 (-DDESC), block size 64 for xattr/extent/dx blocks,
+/* BOUND: inode size 128 or 256 (-DISIZE), descriptor size 32, 64 or 128 (-DDESC), block size 64 for xattr/extent/dx blocks,
  * 1024 for directory leaf blocks (-DBS); two groups; bitmap size argument 0..8 bytes */
 #ifndef ISIZE
 #define ISIZE 256
@@ -220,7 +220,7 @@ static void vf_setup_fs(void)
 #if OBJ == O_GD_CRC16
 	ro |= 0x0010u;
 #endif
-#if DESC == 64
+#if DESC >= 64
 	inc |= 0x0080u;
 #endif
 	vf_sb.s_feature_compat = 0;
@@ -228,8 +228,8 @@ static void vf_setup_fs(void)
 	vf_sb.s_feature_ro_compat = ro;
 	vf_sb.s_rev_level = 1;			/* EXT2_DYNAMIC_REV: s_inode_size is valid */
 	vf_sb.s_inode_size = ISIZE;
-	/* ASSUME: s_desc_size is 64 with the 64bit feature and 0 (ignored) without */
-	vf_sb.s_desc_size = (DESC == 64) ? 64 : 0;
+	/* ASSUME: s_desc_size is 64 or 128 with the 64bit feature and 0 (ignored) without */
+	vf_sb.s_desc_size = (DESC >= 64) ? DESC : 0;
 	vf_sb.s_checksum_seed = IN.sb_seed;
 	for (i = 0; i < 16; i++)
 		vf_sb.s_uuid[i] = IN.uuid[i];
@@ -300,8 +300,10 @@ int main(void)
 	}
 /* ======================================================================== */
 #elif OBJ == O_GD_MC || OBJ == O_GD_CRC16
-	/* metadata_csum: crc32c(seed, le32 group | descriptor of desc_size bytes with bg_checksum (0x1E) zero) & 0xFFFF.
-	 * gdt_csum:      crc16(~0, uuid | le32 group | descriptor without the two bytes at 0x1E).
+	/* (kernel ext4_group_desc_csum / Documentation/filesystems/ext4/group_descr.rst)
+	 * metadata_csum: crc32c(seed, le32 group | desc[0,0x1E) | 00 00 | desc[0x20, s_desc_size)) & 0xFFFF -- ALL s_desc_size
+	 *                bytes (32 without the 64bit feature), also when s_desc_size exceeds the 64-byte structure.
+	 * gdt_csum:      crc16(~0, uuid | le32 group | desc[0,0x1E) | desc[0x20, s_desc_size)) (the field is skipped).
 	 * Stored le16 at 0x1E. */
 	{
 		unsigned int g, base = 0, j;
